@@ -112,6 +112,13 @@ class TracerReplayer:
         self.cg = al.CGraph()
         if self.rec_kind == "U":
             x0 = pt_to_utpm(al, recpt)
+        elif self.rec_kind == "V":
+            # recorded with a polynomial of another degree and direction count (D=3, P=2) than any later evaluation
+            base = pt_to_utpm(al, recpt).data[0, 0]
+            d = numpy.zeros((3, 2, self.N))
+            d[0, :] = base
+            d[1, 0] = 1.0; d[1, 1] = -2.0; d[2, 0] = 0.5; d[2, 1] = 3.0
+            x0 = al.UTPM(d)
         else:
             x0 = numpy.array([ser(recpt["x"][0][j])[0] for j in range(self.N)])
         x = al.Function(x0)
@@ -413,7 +420,7 @@ def tracer_check(rep, configs, pid, nontrivial=None):
                 if kind == "A" and P != 1:
                     continue
                 calls = [e["c"] for e in h if e["c"] in ("fwd", "pb", "drv")]
-                if kind == "A" and calls and calls[0] == "pb":
+                if kind in ("A", "V") and calls and calls[0] == "pb":
                     continue            # a reverse sweep right after recording with plain arrays is not defined
                 rec_this = (bi % 7 == 0) and len(TRACES) < 400
                 if rec_this:
